@@ -159,7 +159,7 @@ FrameRules(s, e) ==
   \o (IF cur \ DOMAIN s.bars # {} THEN <<B("C05", "unknown-bar", e, ToString(cur \ DOMAIN s.bars))>> ELSE <<>>)
   \* C17: a queued bar is not displayed together with its predecessor
   \o (LET both == {b \in cur \cap DOMAIN s.bars : s.bars[b].after # "" /\ s.bars[b].after \in cur}
-      IN IF both # {} THEN <<B("C17", "with-predecessor", e, ToString(both))>> ELSE <<>>)
+      IN IF both # {} THEN <<B("C17,C05", "with-predecessor", e, ToString(both))>> ELSE <<>>)   \* (C05: a frame holds the bars that are not left waiting, and only those)
   \* C17: when the predecessor has left, the successor that was created before the
   \*      predecessor's last cycle began is displayed at once
   \o (LET late == {b \in DOMAIN s.bars :
